@@ -33,16 +33,16 @@ HARNESSES = [
          units=["lib/pm2_decoder.c:lha_pm2_decoder_read,copy_from_history,history_get_count,history_get_offset,output_byte"], timeout=300, mem_gb=4, bounds="x")
     for c, lx, ln, pos, t, v in [(15, 0, 17, 0, 0, 0), (16, 7, 32, 8190, 7, 4095), (17, 20, 53, 100, 3, 44), (18, 63, 128, 5, 1, 0), (19, 0, 129, 8000, 5, 17), (19, 127, 256, 8100, 0, 2), (20, 0, 256, 4096, 0, 0)]
 ] + [
-    dict(name="pm1.cmd.fields", src="C04/pm1_cmd.c", entry="harness_fields", defines=["FIELDS_HARNESS"], rename_defs=dict(BITS, **{"lib/pma_common.c": ["find_in_history_list"]}),
+    dict(name="pm1.cmd.fields", src="C04/pm1_cmd.c", entry="harness_fields", defines=["FIELDS_HARNESS"], backend="cadical", rename_defs=dict(BITS, **{"lib/pma_common.c": ["find_in_history_list"]}),
          unwind=3, unwindset=dict(PM1U, **{"load_bits.0": 9}),
          units=["lib/pm1_decoder.c:read_copy_type_range,read_copy_byte_count,read_byte_block_count,read_byte_decode_index,read_byte"], timeout=300, bounds="x"),
-    dict(name="pm1.cmd.copy", src="C04/pm1_cmd.c", entry="harness_copy", defines=["COPY_HARNESS"], rename_defs=dict(BITS, **{"lib/pma_common.c": ["update_history_list"]}),
+    dict(name="pm1.cmd.copy", src="C04/pm1_cmd.c", entry="harness_copy", defines=["COPY_HARNESS"], backend="cadical", rename_defs=dict(BITS, **{"lib/pma_common.c": ["update_history_list"]}),
          unwind=3, unwindset=dict(PM1U, **{"load_bits.0": 9, "read_copy_command.0": 9}), flags=["--arrays-uf-always"],
          units=["lib/pm1_decoder.c:read_copy_command,outputted_byte"], timeout=300, mem_gb=4, bounds="x"),
-    dict(name="pm1.cmd.read", src="C04/pm1_cmd.c", entry="harness_read", defines=["READ_HARNESS", "BS_N=13"], backend="cadical", rename_defs=dict(BITS, **{"lib/pma_common.c": ["find_in_history_list", "update_history_list"]}),
-         unwind=3, unwindset=dict(PM1U, **{"load_bits.0": 14, "read_copy_command.0": 7, "read_byte_block.0": 5, "harness_read.0": 5, "harness_read.1": 5}), flags=["--arrays-uf-always"],
-         units=["lib/pm1_decoder.c:lha_pm1_read,read_start_header,read_byte_block,read_copy_command,read_byte,outputted_byte"], timeout=300, mem_gb=4, bounds="x"),
-    dict(name="pm1.cmd.block", src="C04/pm1_cmd.c", entry="harness_block", defines=["BLOCK_HARNESS"], rename_defs=dict(BITS, **{"lib/pm1_decoder.c": ["read_byte", "outputted_byte", "read_copy_command"]}),
+    dict(name="pm1.cmd.read", src="C04/pm1_cmd.c", entry="harness_read", defines=["READ_HARNESS", "BS_N=12", "BLOCK_MAX=3", "COPY_MAX2=4"], backend="cadical", rename_defs=dict(BITS, **{"lib/pma_common.c": ["update_history_list"], "lib/pm1_decoder.c": ["read_byte"]}),
+         unwind=3, unwindset=dict(PM1U, **{"load_bits.0": 13, "read_copy_command.0": 5, "read_byte_block.0": 4, "harness_read.0": 4, "harness_read.1": 4}), flags=["--arrays-uf-always"],
+         units=["lib/pm1_decoder.c:lha_pm1_read,read_start_header,read_byte_block,read_copy_command,outputted_byte"], timeout=300, mem_gb=6, bounds="x"),
+    dict(name="pm1.cmd.block", src="C04/pm1_cmd.c", entry="harness_block", defines=["BLOCK_HARNESS"], backend="cadical", rename_defs=dict(BITS, **{"lib/pm1_decoder.c": ["read_byte", "outputted_byte", "read_copy_command"]}),
          unwind=3, unwindset=dict(PM1U, **{"load_bits.0": 9, "read_byte_block.0": 218}),
          units=["lib/pm1_decoder.c:read_byte_block,read_byte_block_count"], timeout=300, bounds="x"),
 ]
